@@ -21,7 +21,7 @@ FUNCTIONS = ["ak.mtd_sql.SqlFilterCondition.make", "ak.mtd_sql.SqlFieldValCondit
              "ak.mtd_sql.SqlMethod._init_record_type", "ak.mtd_sql.SqlMethod.list", "ak.mtd_sql.SqlMethod.all", "ak.mtd_sql.SqlMethod.one",
              "ak.mtd_sql.SqlMethod.one_or_none"]
 BOUNDS = {
-    "quick": {"special": "string operands/cells also from 12 SQL look-alike strings (IS NULL, NULL, ?, %, quotes, ...)", "shapes": "45 condition-tree shapes: 1-3 top-level filters from comparisons (6 operators), IN/NOT IN/=/!= with list, tuple, set of 0..2 values, NULL tests, '='/'!=' None, "
+    "quick": {"special": "string operands/cells also from 12 SQL look-alike strings (IS NULL, NULL, ?, %, quotes, ...)", "shapes": "48 condition-tree shapes: 1-3 top-level filters from comparisons (6 operators), IN/NOT IN/=/!= with list, tuple, set of 0..2 values, NULL tests, '='/'!=' None, "
                         "LIKE/NOT LIKE, OR-groups of 0..2 operands (incl. nested IN and kwargs form), ignored None arguments, keyword filters, 2-item tuples, static text",
               "values": "int operands and integer cells: ALL ints or NULL (symbolic); text operands/cells: NULL or ANY string of length <= 2 (symbolic characters: quotes, wildcards, anything)", "table": "2 symbolic rows (1 symbolic row for shapes that involve the text column: WHERE is a per-row predicate)"},
 }
@@ -366,6 +366,7 @@ SHAPES = [
     [("static", "a = id"), ("cmp", "a", ">")], [("or", [("static", "a = id"), ("cmpn", "b", "=")])],
     [("or", [("cmp", "b", "="), ("cmp", "a", "<")])], [("or", [("cmp", "b", "<"), ("in", "a", "IN", "list", 1)]), ("cmp", "a", ">=")],
     [("or", [("cmp", "a", ">"), ("cmp", "a", "=")])],
+    [("or", [("kwn", "a"), ("cmp", "b", "=")])], [("or", [("kw", "a"), ("kwn", "b")]), ("cmp", "a", "<")], [("or", [("kwn", "a")])],
     [("in", "a", "IN", "list", 1), ("like", "NOT LIKE"), ("kw", "a")], [("or", [("or", [("cmp", "a", "<")]), ("cmp", "a", ">")]), ("kwn", "a")],
 ]
 
@@ -439,9 +440,10 @@ def _build(items, pools, kw):
             args.append(("b", op, v))
             preds.append(lambda r, v=v, neg=("NOT" in op.upper()): (t_not(like(r["b"], v)) if neg else like(r["b"], v)))
         elif kind == "or":
-            sub_args, sub_preds = _build(it[1], pools, None)
-            # kwargs inside an OR group are exercised through the keyword form when there is exactly one "kw"-able operand
-            args.append(SqlMethod._or(*sub_args))
+            sub_kw: dict = {}
+            sub_args, sub_preds = _build(it[1], pools, sub_kw)
+            # operands of an OR group may be given in keyword form as well (incl. col=None, which means IS NULL)
+            args.append(SqlMethod._or(*sub_args, **sub_kw))
 
             def orp(r, sub_preds=sub_preds):
                 res: Optional[bool] = False
